@@ -6,6 +6,16 @@ ALL = ["C%02d" % i for i in range(1, 21)]
 
 # id -> dict(level, text, note, technique, design_ref, engine)
 CHECKS = {
+ "C12": dict(level="exploration", engine="gridx",
+   text="8 constituent models x parameter vectors forcing both branches of each x initial stored masses {0,>0} x every word of length T over alphabets with zero-flow, near-empty and above-bank-full letters; each word is executed as a chain of single-step calls on the real model so that the stored masses before and after every step are observed, and the per-step mass budget, non-negativity and remobilisation bound are checked.",
+   note="Exhaustive over the stated lattice; the low-volume flush is the only admitted loss; StorageTrapAll's budget is in its own per-step units.",
+   technique="bounded-exhaustive enumeration of input words x parameter vectors x initial stores; per-transition mass-budget invariant on the real code",
+   design_ref="2/C12"),
+ "C13": dict(level="exploration", engine="gridx",
+   text="Storage x 3 LVA tables x 4 release-curve families (+ a flat-bottomed tank) x 2 timesteps x 3 initial volumes x every word of length T over 8 (rain,PET,inflow,demand) letters: per-step balance with the reported atmospheric volumes, V>=0, release within the curves over the volumes traversed, = demand when admissible, spill only above full supply, final level/area = table values.",
+   note="Exhaustive over the stated lattice; release bounds are taken with the sub-step controller's own tolerance; one recorded finding (panic when evaporating from an empty flat-bottomed storage).",
+   technique="bounded-exhaustive enumeration of input words x table/release-curve configurations; per-transition balance and release-rule invariants",
+   design_ref="2/C13"),
  "C06": dict(level="exploration", engine="gridx",
    text="17 stateful models x parameter vectors covering every state-shape variant and branch x every input word of length T over the model's alphabet x every composition of T (all 2^(T-1)-1 split patterns, incl. 1-step segments and multiple splits): concatenated outputs and final states of the split run vs the uninterrupted run on the real model objects.",
    note="Exhaustive over the stated alphabets and horizon; two recorded findings (Sacramento UH buffer, dissolved-nutrient previous volume) are matched by narrow signatures; StorageRouting compared within its solver tolerance.",
